@@ -315,7 +315,13 @@ def parseLine (mode : Bool) (p : Parsed) (line : String) : Parsed :=
   | [] => p
   | "load" :: _ => p
   | "lpc" :: _ => p
-  | "conf" :: _ => p     -- configuration / master variant of the run: the limits machine does not depend on it (Handler.lean)
+  | ["conf", v] =>
+    -- configuration / master variant of the run: the limits machine does not depend on it (Handler.lean); the oracle's allowance
+    -- for the driver's own trace does (values per frame: arguments, local variables)
+    let n := (if (v.splitOn "args").length > 1 || (v.splitOn "both").length > 1 then 1 else 0) +
+             (if (v.splitOn "locals").length > 1 || (v.splitOn "both").length > 1 then 1 else 0)
+    { p with lim := { p.lim with traceValues := n } }
+  | "conf" :: _ => p
   | ["cfgint", i, v] =>
     match i.toNat?, v.toInt? with
     | some i, some v => { p with lim := setCfgInt p.lim i v }
